@@ -34,6 +34,7 @@ CM_TOL = 0.05                           # content map, px (antialiased non-integ
 SEL_F8 = "labels_provider_skips_preprocess"
 SEL_F10 = "last_half_cell_band"
 SEL_F11 = "resize_registration_offset"
+SEL_F7 = "gt_centroid_crops_before_resize"
 
 
 # ------------------------------------------------------------------ geometry mirror (generator only)
@@ -300,6 +301,76 @@ def gen_topdown(rng, idx):
     raise RuntimeError("generator could not place a top-down case")
 
 
+def bbox_mid(kps):
+    vis = [p for p in kps if p is not None]
+    xs, ys = [p[0] for p in vis], [p[1] for p in vis]
+    return ((min(xs) + max(xs)) / 2, (min(ys) + max(ys)) / 2)
+
+
+def gen_topdown_gt(rng, idx):
+    """Top-down with ground-truth centroids (centroid model = None; LabelsReader only)."""
+    for _ in range(300):
+        H, W, mh, mw, variant = gen_sizes(rng)
+        if min(H, W) < 64:
+            continue
+        c = {"kind": "topdown_gt", "idx": idx, "H": H, "W": W, "mh": mh, "mw": mw, "variant": variant,
+             "scale_c": F(1), "scale_i": rng.choice([F(1, 2), F(3, 4), F(1), F(1)]), "ms_c": 1,
+             "ms_i": rng.choice([1, 8, 16]), "os_c": 1, "os_i": rng.choice([1, 2, 4]), "crop": rng.choice([32, 48, 64]),
+             "refinement": None, "batch": rng.randint(1, 3), "n_nodes": rng.randint(1, 4), "band": False,
+             "n_videos": rng.choice([1, 2])}
+        if not config_ok(H, W, mh, mw, [c["scale_i"]]):
+            continue
+        g = td_geom(c)
+        sm = sizematch(H, W, mh, mw)
+        eff, si, osi = g["eff"], c["scale_i"], c["os_i"]
+        a0 = {"x": resize_map(W, sm["tw"]) if sm["resized"] else (F(1), F(0)),
+              "y": resize_map(H, sm["th"]) if sm["resized"] else (F(1), F(0))}
+        # keypoints must stay inside the crop both as pinned (crop cut from the un-resized image) and repaired
+        reach = (F(c["crop"], 2) - 2 * osi - 3) / eff
+        if reach < 3:
+            continue
+        quads = [(i, j) for i in range(2) for j in range(2)]
+        frames = []
+        for f in range(rng.randint(1, 4)):
+            animals = []
+            for (qi, qj) in rng.sample(quads, rng.randint(1, 3)):
+                for _ in range(300):
+                    r = min(reach, F(W, 4) - 3, F(H, 4) - 3, F(30))
+                    if r < 2:
+                        break
+                    cx = F(rng.randrange(8 * int(qj * W // 2 + r + 2), 8 * int((qj + 1) * W // 2 - r - 2) + 1), 8)
+                    cy = F(rng.randrange(8 * int(qi * H // 2 + r + 2), 8 * int((qi + 1) * H // 2 - r - 2) + 1), 8)
+                    kps = [None if rng.random() < 0.2 else
+                           (cx + F(rng.randrange(-int(8 * r), int(8 * r) + 1), 8), cy + F(rng.randrange(-int(8 * r), int(8 * r) + 1), 8))
+                           for _ in range(c["n_nodes"])]
+                    if all(p is None for p in kps):
+                        continue
+                    mid = bbox_mid(kps)
+                    ok = True
+                    for fixed in (False, True):
+                        for ax, n_img in ((0, W), (1, H)):
+                            key = "xy"[ax]
+                            amap = g["p" + key] if fixed else a0[key]
+                            tl = (mid[ax] * eff * si if fixed else mid[ax] * eff) - F(c["crop"], 2) + F(1, 2)
+                            for p in kps:
+                                if p is None:
+                                    continue
+                                v = app(amap, p[ax]) - tl
+                                if tie_margin(v, osi) < MU or not (1 <= v <= c["crop"] - 2 - osi):
+                                    ok = False
+                    if ok:
+                        animals.append({"kps": kps, "cent": mid})
+                        break
+            if not animals:
+                break
+            frames.append(animals)
+        if len(frames) == 0 or any(not a for a in frames):
+            continue
+        c["frames"] = frames
+        return c
+    raise RuntimeError("generator could not place a ground-truth-centroid case")
+
+
 # ------------------------------------------------------------------ (de)serialisation
 def fr_s(x):
     return None if x is None else str(x)
@@ -374,6 +445,11 @@ def run_impl(c, mods, provider):
                    batch=c["batch"], refinement=c["refinement"])
         pred, stub = S.build_single_predictor(mods, sc, cfg)
         stubs = {"single": stub}
+    elif c["kind"] == "topdown_gt":
+        cfg = dict(os_i=c["os_i"], scale_i=float(c["scale_i"]), ms_i=c["ms_i"], max_h=c["mh"], max_w=c["mw"],
+                   crop=c["crop"], batch=c["batch"], refinement=c["refinement"])
+        pred, si_ = S.build_topdown_gt_predictor(mods, sc, cfg)
+        stubs = {"centroid": type("E", (), {"log": []})(), "instance": si_}
     else:
         cfg = dict(os_c=c["os_c"], os_i=c["os_i"], scale_c=float(c["scale_c"]), scale_i=float(c["scale_i"]),
                    ms_c=c["ms_c"], ms_i=c["ms_i"], max_h=c["mh"], max_w=c["mw"], crop=c["crop"], batch=c["batch"],
@@ -420,9 +496,9 @@ def oracle_point(pred_xy, val, true_p, half, reg, ctx):
         if err <= h + tol:
             continue
         msg = f"axis {'xy'[ax]}: |{p} - {float(t)}| = {err:.5f} > half cell {h:.5f}"
-        if ctx.get("f8"):
-            sel = SEL_F8
-        elif ctx.get("band"):
+        if ctx.get("override"):
+            sel = ctx["override"]
+        elif ctx.get("band") and ctx["band"][ax]:
             sel = SEL_F10
         elif r is not None and r > 1e-6 and err <= h + r + tol + 2e-3:
             sel = SEL_F11
@@ -432,6 +508,13 @@ def oracle_point(pred_xy, val, true_p, half, reg, ctx):
         if worst is None or sel is None:
             worst = (msg, sel)
     return worst
+
+
+def in_last_band(jx, jy, shape, os_):
+    """Selector of F10, per axis: the keypoint sits (in the network input it was
+    decoded from) beyond the last grid sample by more than half a cell."""
+    h, w = shape
+    return (jx > (-(-w // os_) - 1) * os_ + os_ / 2, jy > (-(-h // os_) - 1) * os_ + os_ / 2)
 
 
 def match_instances(preds, animals):
@@ -461,7 +544,7 @@ def eff_of(c):
     return 1.0 if (mh == c["H"] and mw == c["W"]) else min(mh / c["H"], mw / c["W"])
 
 
-def oracle_case(c, res, provider, fixed_f8):
+def oracle_case(c, res, provider, fixed_f8, fixed_f7=False):
     """The property on one provider's output.  Returns list of (reason, selector, where)."""
     fails = []
     eff = eff_of(c)
@@ -470,6 +553,7 @@ def oracle_case(c, res, provider, fixed_f8):
     os_ = c["os"] if single else c["os_i"]
     half = os_ / (2 * s * eff)
     f8 = single and provider == "LabelsReader" and c["scale"] != 1 and not fixed_f8
+    f7 = c["kind"] == "topdown_gt" and c["scale_i"] != 1 and not fixed_f7
     logs = res["logs"]["single" if single else "instance"]
     for fid, animals in enumerate(c["frames"]):
         preds = res["per_frame"].get(fid, [])
@@ -483,12 +567,15 @@ def oracle_case(c, res, provider, fixed_f8):
             pts, vals, _ = preds[0]
             for k, p in enumerate(a["kps"]):
                 reg = None
+                band = None
                 if p is not None and rec is not None and rec.get("ax"):
                     jx = (float(p[0]) - rec["bx"]) / rec["ax"]
                     jy = (float(p[1]) - rec["by"]) / rec["ay"]
                     reg = (abs(jx - s * eff * float(p[0])) / (s * eff), abs(jy - s * eff * float(p[1])) / (s * eff))
+                    band = in_last_band(jx, jy, rec["shape"], os_)
                 bad = oracle_point(pts[k], vals[k], p, (half, half), reg,
-                                   {"f8": f8, "band": c.get("band"), "nan_selector": SEL_F8 if f8 else None})
+                                   {"override": SEL_F8 if f8 else None, "band": band,
+                                    "nan_selector": SEL_F8 if f8 else None})
                 if bad:
                     fails.append((f"frame {fid} node {k}: {bad[0]}", bad[1], fid))
         else:
@@ -504,12 +591,16 @@ def oracle_case(c, res, provider, fixed_f8):
                 rec = next((r for r in logs if r["fid"] == fid and r.get("animal") == j), None)
                 for k, p in enumerate(a["kps"]):
                     reg = None
+                    band = None
                     if p is not None and rec is not None and rec.get("ax") and "tl" in rec:
                         jx = (float(p[0]) - rec["bx"]) / rec["ax"] + rec["tl"][0]
                         jy = (float(p[1]) - rec["by"]) / rec["ay"] + rec["tl"][1]
                         reg = (abs(jx - s * eff * float(p[0])) / (s * eff),
                                abs(jy - s * eff * float(p[1])) / (s * eff))
-                    bad = oracle_point(pts[k], vals[k], p, (half, half), reg, {"band": c.get("band")})
+                        band = in_last_band(jx - rec["tl"][0], jy - rec["tl"][1], rec["shape"], os_)
+                    bad = oracle_point(pts[k], vals[k], p, (half, half), reg,
+                                       {"band": band, "override": SEL_F7 if f7 else None,
+                                        "nan_selector": SEL_F7 if f7 else None})
                     if bad:
                         fails.append((f"frame {fid} animal {j} node {k}: {bad[0]}", bad[1], fid))
     return fails
@@ -606,7 +697,16 @@ def f11_witness():
             "n_videos": 1, "frames": [[{"kps": [(F(315, 8), F(24))], "cent": (F(32), F(32))}]]}
 
 
-WITNESSES = {"F8_labels_scale_half.json": f8_witness, "F10_last_band.json": f10_witness,
+def f7_witness():
+    # ground-truth centroids, centered-instance scale 1/2: (30,24),(36,30) come back as ~(59,47),(71,59)
+    kps = [(F(30), F(24)), (F(36), F(30))]
+    return {"kind": "topdown_gt", "idx": -4, "H": 64, "W": 64, "mh": None, "mw": None, "variant": "none",
+            "scale_c": F(1), "scale_i": F(1, 2), "ms_c": 1, "ms_i": 16, "os_c": 1, "os_i": 2, "crop": 32,
+            "refinement": None, "batch": 1, "n_nodes": 2, "band": False, "n_videos": 1,
+            "frames": [[{"kps": kps, "cent": (F(33), F(27))}]]}
+
+
+WITNESSES = {"F7_gt_centroids_scale_half.json": f7_witness, "F8_labels_scale_half.json": f8_witness, "F10_last_band.json": f10_witness,
              "F11_resize_half.json": f11_witness}
 
 
@@ -622,7 +722,7 @@ def ensure_corpus():
 def attach_tls(c, res):
     """Attach the crop corners (measured from the implementation's raw output,
     in pre-crop image pixels) to the instance-stage stub logs."""
-    if c["kind"] != "topdown" or "error" in res:
+    if c["kind"] not in ("topdown", "topdown_gt") or "error" in res:
         return
     k = float(c["scale_i"]) * eff_of(c)
     tls = []
@@ -637,13 +737,17 @@ def attach_tls(c, res):
 
 
 # ------------------------------------------------------------------ the check
-def evaluate(run, cases, mods, fixed_f8):
+def providers_of(c):
+    return ("LabelsReader",) if c["kind"] == "topdown_gt" else ("VideoReader", "LabelsReader")
+
+
+def evaluate(run, cases, mods, fixed_f8, fixed_f7=False):
     """Runs impl (both providers) + model + oracle + correspondence on the cases."""
     import numpy as np
     results = []
     for c in cases:
         r = {}
-        for prov in ("VideoReader", "LabelsReader"):
+        for prov in providers_of(c):
             try:
                 r[prov] = run_impl(c, mods, prov)
             except Exception as e:          # noqa
@@ -664,6 +768,11 @@ def evaluate(run, cases, mods, fixed_f8):
                     kps = animals[0]["kps"] if animals else [None] * c["n_nodes"]
                     terms.append(f"CSingle {si_cfg_term(c, fixed_f8)} {prov} {core.clist(kps, ckp)}")
                     index.append((ci, prov, fid, "single"))
+        elif c["kind"] == "topdown_gt":
+            for fid, animals in enumerate(c["frames"]):
+                terms.append(f"CTopDownGT {core.cbool(fixed_f7)} {td_cfg_term(c)} "
+                             f"{core.clist([a['kps'] for a in animals], lambda k: core.clist(k, ckp))}")
+                index.append((ci, "LabelsReader", fid, "gt"))
         else:
             for fid, animals in enumerate(c["frames"]):
                 terms.append(f"CTopDown {td_cfg_term(c)} {core.clist(animals, animal_term)}")
@@ -723,7 +832,7 @@ def evaluate(run, cases, mods, fixed_f8):
                     diffs.append(f"{where}: eff_scale {eff} model {q2f(meff)}")
             elif what == "topdown":
                 cgx, cgy, pmx, pmy, meff, (nix, niy), insts, cmargins = m
-                for prov in ("VideoReader", "LabelsReader"):
+                for prov in providers_of(c):
                     res = r[prov]
                     if "error" in res:
                         continue
@@ -765,6 +874,24 @@ def evaluate(run, cases, mods, fixed_f8):
                                 if inst is None:
                                     diffs.append(f"{where}: crop corner {rec['tl']} not among the model's "
                                                  f"{[(q2f(i[2][0]), q2f(i[2][1])) for i in insts]}")
+            elif what == "gt":
+                res = r[prov]
+                if "error" in res:
+                    continue
+                where = f"{prov} frame {fid} (ground-truth centroids)"
+                preds = res["per_frame"].get(fid, [])
+                minsts = [x for x in m if x is not None]
+                if len(preds) != len(minsts):
+                    diffs.append(f"{where}: {len(preds)} instances, model {len(minsts)}")
+                    continue
+                k = float(c["scale_i"]) * eff
+                recs = [x for x in res["logs"]["instance"] if x["fid"] == fid]
+                for n, ((pts, vals, score), (tl, mpts, margins)) in enumerate(zip(preds, minsts)):
+                    cmp_points(mpts, pts, vals, None, c["os_i"] / (2 * k), margins, f"{where} instance {n}", diffs, stats)
+                    stats["points_compared"] += len(mpts)
+                    if n < len(recs) and "tl" in recs[n]:
+                        if abs(recs[n]["tl"][0] - q2f(tl[0])) > 2e-3 or abs(recs[n]["tl"][1] - q2f(tl[1])) > 2e-3:
+                            diffs.append(f"{where} instance {n}: crop corner {recs[n]['tl']} model {(q2f(tl[0]), q2f(tl[1]))}")
             else:   # "at": instance stage at the measured crop corner (integral refinement)
                 res = r[prov]
                 mpts, margins = m
@@ -779,10 +906,10 @@ def evaluate(run, cases, mods, fixed_f8):
                                f"{prov} crop {fid} (frame {rec['fid']})", diffs, stats)
                     stats["points_compared"] += len(mpts)
         # ---- oracle
-        for prov in ("VideoReader", "LabelsReader"):
+        for prov in providers_of(c):
             if "error" not in r[prov]:
-                fails += [(f"{prov}: {a}", b, w) for a, b, w in oracle_case(c, r[prov], prov, fixed_f8)]
-        if not errored:
+                fails += [(f"{prov}: {a}", b, w) for a, b, w in oracle_case(c, r[prov], prov, fixed_f8, fixed_f7)]
+        if not errored and len(providers_of(c)) == 2:
             pi = provider_independence(c, r["LabelsReader"], r["VideoReader"])
             f8dom = single and c["scale"] != 1 and not fixed_f8
             fails += [(f"provider independence: {x}", SEL_F8 if f8dom else None, None) for x in pi]
@@ -809,6 +936,14 @@ def detect_fixed_f8(mods):
     c = f8_witness()
     rl = run_impl(c, mods, "LabelsReader")
     return bool(rl["flags"]["preprocess"]), rl
+
+
+def detect_fixed_f7(mods):
+    """Does CentroidCrop(use_gt_centroids=True) still cut the crops before resizing (F7)?"""
+    c = f7_witness()
+    res = run_impl(c, mods, "LabelsReader")
+    pts = res["per_frame"][0][0][0]
+    return bool(abs(pts[0][0] - 30.0) <= 2.5 and abs(pts[0][1] - 24.0) <= 2.5)
 
 
 def check_f7(run, mods):
@@ -839,6 +974,9 @@ def check(run: core.Run) -> int:
     mods = (torch, OmegaConf, predictors)
     thorough = run.tier == "thorough"
     fixed_f8, _ = detect_fixed_f8(mods)
+    fixed_f7 = detect_fixed_f7(mods)
+    run.notes.append(f"F7 state of the tree: ground-truth-centroid crops are cut {'after' if fixed_f7 else 'BEFORE'} "
+                     f"the pre-crop resize ({'repaired' if fixed_f7 else 'as pinned'})")
     run.notes.append(f"F8 state of the tree: LabelsReader preprocess flag = {fixed_f8} "
                      f"({'repaired' if fixed_f8 else 'as pinned: preprocessing skipped'})")
     check_f7(run, mods)
@@ -847,13 +985,16 @@ def check(run: core.Run) -> int:
     for f in sorted((core.CORPUS / "C02").glob("*.json")):
         cases.append(case_from_json(json.load(open(f))))
     n_single, n_td, n_band = (420, 700, 80) if thorough else (60, 70, 10)
+    n_gt = 200 if thorough else 20
     for i in range(n_single):
         cases.append(gen_single(run.rng, len(cases)))
     for i in range(n_band):
         cases.append(gen_single(run.rng, len(cases), band=True))
     for i in range(n_td):
         cases.append(gen_topdown(run.rng, len(cases)))
-    disagreements, stats, _ = evaluate(run, cases, mods, fixed_f8)
+    for i in range(n_gt):
+        cases.append(gen_topdown_gt(run.rng, len(cases)))
+    disagreements, stats, _ = evaluate(run, cases, mods, fixed_f8, fixed_f7)
     run.obligation("correspondence: Decode.run (Coq, vm_compute) == real predictors with the ramp stub "
                    "(coordinates, values, NaN pattern, instance order, network input shapes, content maps)",
                    disagreements == 0, f"{disagreements} cases disagree")
@@ -904,15 +1045,19 @@ def replay(run: core.Run, path: str) -> int:
     rep = json.load(open(path))
     c = case_from_json(rep["case"])
     fixed_f8, _ = detect_fixed_f8(mods)
+    fixed_f7 = detect_fixed_f7(mods)
     out = {}
     bad = False
     res = {}
-    for prov in ("VideoReader", "LabelsReader"):
+    for prov in providers_of(c):
         res[prov] = run_impl(c, mods, prov)
         attach_tls(c, res[prov])
-        f = oracle_case(c, res[prov], prov, fixed_f8)
+        f = oracle_case(c, res[prov], prov, fixed_f8, fixed_f7)
         out[prov] = [(a, b) for a, b, _ in f]
         bad = bad or any(b is None or run.selector_known(b) is None for _, b, _ in f)
+    if len(providers_of(c)) == 1:
+        print(json.dumps(out, indent=1))
+        return 1 if bad else 0
     pi = provider_independence(c, res["LabelsReader"], res["VideoReader"])
     out["provider_independence"] = pi
     f8dom = c["kind"] == "single" and c["scale"] != 1 and not fixed_f8 and run.selector_known(SEL_F8) is not None
